@@ -68,3 +68,27 @@ Definition list_check (item : list N -> bool) (len_ok : nat -> bool) (s : list N
   let ts := tokens s in len_ok (length ts) && forallb item ts.
 Definition union_check (members : list (list N -> bool)) (s : list N) : bool :=
   match find (fun m => m s) members with Some _ => true | None => false end.
+
+(** the repaired code (fixes/C09-double-sign-dot.patch, fixes/C09-double-compare-nan.patch): normalizeZero rewrites to a
+    zero only when a '0' was seen; a swapped INDETERMINATE stays INDETERMINATE.  [fix33]/[fix34] = false: code as is *)
+Definition normalize_zero_f (fix33 : bool) (l : list N) : option (list N) :=
+  match normalize_zero l with
+  | Some u => if fix33 && negb (leqb u l) && negb (existsb (fun c => c =? ch_0) l) then Some l else Some u
+  | None => None
+  end.
+Definition float_init_f (fix33 : bool) (s : list N) : bool :=
+  match s with [] => false | _ =>
+  match trim_ws s with
+  | [] => false
+  | t => match normalize_zero_f fix33 t with
+         | None => false
+         | Some u => if leqb u s_NINF || leqb u s_INF || leqb u s_NaN then true
+                     else forallb float_char_ok u && float_num_lex u
+         end
+  end end.
+Definition xsv_float_validate_f (fix33 : bool) (s : list N) : bool := if all_spaces s then false else float_init_f fix33 s.
+Definition float_cmp_special_f (fix34 : bool) (a b : fkind) : option Z :=
+  match a, b with
+  | K_Finite, K_NaN => if fix34 then Some 2%Z else float_cmp_special a b
+  | _, _ => float_cmp_special a b
+  end.
